@@ -250,8 +250,20 @@ def register(R):
         }
 
     R.contract(f'{MGR}._shutdown', props=['C20', 'C18'], params=dict(cancel=Bool), checks=shutdown_checks, raises={})
-    for q, n in (('_cancel_transfers', 1), ('_finish_transfers', 1), ('_wait_transfers_done', 1)):
+    def cancel_iteration(l0, l1, evs):
+        from pyvc.values import to_z3_bool
+        dn = [x for x in evs if x.kind == 'ext' and x.name == 'crt_coordinator.done']
+        cn = [x for x in evs if x.kind == 'ext' and x.name == 'crt_coordinator.cancel']
+        okshape = len(dn) == 1 and len(cn) <= 1 and all(x.recv is dn[0].recv for x in cn)
+        out = {'looks_at_each_transfer_once': (B(bool(okshape)), ['C20', 'C18'])}
+        if okshape:
+            # in a cancelling pass a transfer is cancelled exactly when it is not done yet
+            out['cancelled_iff_not_done_yet'] = (B(len(cn) == 1) == z3.Not(to_z3_bool(dn[0].result)), ['C20', 'C18'])
+        return out
+
+    for q, n in (('_finish_transfers', 1), ('_wait_transfers_done', 1)):
         R.contract(f'{MGR}.{q}', params={}, inline=True, loops={0: trivial_loop()})
+    R.contract(f'{MGR}._cancel_transfers', params={}, inline=True, loops={0: LoopSpec(invariant=lambda l: {}, iteration_checks=cancel_iteration)})
 
 
 ROOTS = [f'{MGR}._submit_transfer', f'{ARGS}.get_crt_callback', f'{ARGS}._get_make_request_args_get_object', f'{RTH}.__call__',
